@@ -174,9 +174,14 @@ func (fe *FnExec) unknownCall(fr *frame, st *State, key string, cc *ssa.CallComm
 	}
 	fe.unknown[key]++
 	fe.preCallInv(fr, st, fr.ords[fe.curInstr], full, fe.curArgTypes, fe.curInstr.Pos())
-	for _, a := range full {
+	for i, a := range full {
+		fe.curHavocType = nil
+		if i < len(fe.curArgTypes) {
+			fe.curHavocType = fe.curArgTypes[i]
+		}
 		fe.havocArg(st, a, 0)
 	}
+	fe.curHavocType = nil
 	fe.lastCallRule(fr, st, full)
 	fe.reestablishArgs(st, full, fe.curArgTypes)
 	hwPost := fe.fresh("hw", "Int")
@@ -247,9 +252,31 @@ func (fe *FnExec) havocArg(st *State, a Val, depth int) {
 	}
 }
 
+// streamLike reports whether a value of static type t can be read from / written to as a stream.
+func streamLike(t types.Type) bool {
+	if t == nil {
+		return true
+	}
+	ms := types.NewMethodSet(t)
+	for _, m := range []string{"Read", "ReadByte", "ReadAt", "Seek", "Write", "WriteAt", "WriteTo", "ReadFrom"} {
+		if ms.Lookup(nil, m) != nil {
+			return true
+		}
+	}
+	if _, isI := t.Underlying().(*types.Interface); isI && ms.Len() == 0 {
+		return true // interface{}: anything
+	}
+	return false
+}
+
 func (fe *FnExec) havocGhost(st *State, obj Term) {
 	for _, name := range sortedKeys(fe.eng.voc.Ghost) {
 		g := fe.eng.voc.Ghost[name]
+		if (name == "pos" || name == "wn") && fe.curHavocType != nil && !streamLike(fe.curHavocType) {
+			// assumption: an unknown callee moves the read / write position only of arguments whose static
+			// type is a reader or writer
+			continue
+		}
 		key := obj
 		if g.Key != "" {
 			key = sx(sym(g.Key), obj)
